@@ -206,7 +206,11 @@ class CtlGen:
             if nested:
                 self.shapes["store_in_nested_block"] += 1
         k = K
-        if rng.random() < 0.02:
+        narrower = {"float": ["int", "bool"], "int": ["bool"]}.get(K, [])
+        if narrower and x in known and rng.random() < 0.10:
+            k = rng.choice(narrower)            # a narrower value into a wider variable: inside the guard while x is not read
+            self.shapes["narrower_store"] = self.shapes.get("narrower_store", 0) + 1
+        elif rng.random() < 0.02:
             k = rng.choice([kk for kk in KINDS if kk != K])
             self.deviations += 1
             self.shapes["other_kind_store"] += 1
